@@ -561,6 +561,206 @@ theorem formEdgeSwap_formed {φ : Int → Int → Int → G} (hφ : Alt φ) (hd 
           exact (hbad h.1).elim
 
 
+/-! ### form_edge_split -/
+
+theorem formSplitTris_prefix (g : Grid α) (n0 n1 : Int) (cells : List (Nat × Tri)) (c : Cav) :
+    ∃ l, (formSplitTris g n0 n1 c cells).2.1.tetList = c.tetList ++ l := by
+  induction cells generalizing c with
+  | nil => exact ⟨[], by simp [formSplitTris]⟩
+  | cons p rest ih =>
+    obtain ⟨cell, tri⟩ := p
+    unfold formSplitTris
+    simp only
+    split
+    · exact ⟨[], by simp⟩
+    · obtain ⟨l0, h0⟩ := insertSegs_prefix g ((triSegs tri).filter fun s => !(sameEdge n0 n1 s.n0 s.n1))
+        { c with triList := c.triList ++ [(cell : Int)] }
+      rcases hins : insertSegs g { c with triList := c.triList ++ [(cell : Int)] }
+        ((triSegs tri).filter fun s => !(sameEdge n0 n1 s.n0 s.n1)) with ⟨s1, c1⟩
+      rw [hins] at h0
+      have h0' : c1.tetList = c.tetList ++ l0 := h0
+      try rw [hins]
+      cases s1
+      case ok =>
+        obtain ⟨l1, h1⟩ := ih c1
+        exact ⟨l0 ++ l1, by rw [h1, h0', List.append_assoc]⟩
+      all_goals exact ⟨l0, h0'⟩
+
+theorem formSplitTris_state_mono (g : Grid α) (n0 n1 : Int) (cells : List (Nat × Tri)) (c c' : Cav)
+    (s : Refine.Model.Cavity.St) (b : Bool) (h : formSplitTris g n0 n1 c cells = (s, c', b))
+    (hs : c'.state = .unknown) : c.state = .unknown := by
+  induction cells generalizing c with
+  | nil => simp only [formSplitTris, Prod.mk.injEq] at h; rw [← h.2.1] at hs; exact hs
+  | cons p rest ih =>
+    obtain ⟨cell, tri⟩ := p
+    unfold formSplitTris at h
+    simp only at h
+    split at h
+    · simp only [Prod.mk.injEq] at h; rw [← h.2.1] at hs; simp at hs
+    · rcases hins : insertSegs g { c with triList := c.triList ++ [(cell : Int)] }
+        ((triSegs tri).filter fun s => !(sameEdge n0 n1 s.n0 s.n1)) with ⟨s1, c1⟩
+      rw [hins] at h
+      have key : c1.state = .unknown → c.state = .unknown := fun h1 =>
+        insertSegs_state_mono g _ { c with triList := c.triList ++ [(cell : Int)] } c1 _ hins h1
+      cases s1 <;> simp only [] at h
+      case ok => exact key (ih c1 h)
+      all_goals (simp only [Prod.mk.injEq] at h; exact key (h.2.1 ▸ hs))
+
+theorem formSplitTris_early (g : Grid α) (n0 n1 : Int) (cells : List (Nat × Tri)) (c c' : Cav)
+    (s : Refine.Model.Cavity.St) (h : formSplitTris g n0 n1 c cells = (s, c', true)) :
+    s ≠ .ok ∨ c'.state = .partition_constrained := by
+  induction cells generalizing c with
+  | nil => simp [formSplitTris] at h
+  | cons p rest ih =>
+    obtain ⟨cell, tri⟩ := p
+    unfold formSplitTris at h
+    simp only at h
+    split at h
+    · simp only [Prod.mk.injEq, and_true] at h; right; rw [← h.2]
+    · rcases hins : insertSegs g { c with triList := c.triList ++ [(cell : Int)] }
+        ((triSegs tri).filter fun s => !(sameEdge n0 n1 s.n0 s.n1)) with ⟨s1, c1⟩
+      rw [hins] at h
+      cases s1 <;> simp only [] at h
+      case ok => exact ih c1 h
+      all_goals (simp only [Prod.mk.injEq, and_true] at h; left; rw [← h.1]; decide)
+
+theorem formSplitTris_spec {φ : Int → Int → Int → G} (hφ : Alt φ) (hd : Diag φ) (g : Grid α) (n0 n1 : Int)
+    (cells : List (Nat × Tri)) (c c' : Cav) (s : Refine.Model.Cavity.St)
+    (hf : SlotsInv c.faces) (hsg : SlotsInv c.segs) (htl : c.tetList ≠ [])
+    (h : formSplitTris g n0 n1 c cells = (s, c', false)) (hs : c'.state = .unknown)
+    (hsame : c'.tetList = c.tetList) :
+    SlotsInv c'.faces ∧ SlotsInv c'.segs ∧ c'.node = c.node ∧ c'.surfNode = c.surfNode ∧
+    c'.triList = c.triList ++ cells.map (fun p => (p.1 : Int)) ∧ ledgerVal φ c' = ledgerVal φ c := by
+  have hψ : Alt2 (fun _ _ => (0 : G)) := ⟨fun _ _ => by simp, fun _ => rfl⟩
+  induction cells generalizing c with
+  | nil =>
+    simp only [formSplitTris, Prod.mk.injEq, and_true] at h
+    obtain ⟨_, rfl⟩ := h
+    exact ⟨hf, hsg, rfl, rfl, by simp, rfl⟩
+  | cons p rest ih =>
+    obtain ⟨cell, tri⟩ := p
+    unfold formSplitTris at h
+    simp only at h
+    split at h
+    · simp at h
+    · rcases hins : insertSegs g { c with triList := c.triList ++ [(cell : Int)] }
+        ((triSegs tri).filter fun s => !(sameEdge n0 n1 s.n0 s.n1)) with ⟨s1, c1⟩
+      rw [hins] at h
+      cases s1 <;> simp only [] at h <;> try (simp at h)
+      have hs1 : c1.state = .unknown := formSplitTris_state_mono g n0 n1 rest c1 c' _ _ h hs
+      obtain ⟨l0, h0⟩ := insertSegs_prefix g ((triSegs tri).filter fun s => !(sameEdge n0 n1 s.n0 s.n1))
+        { c with triList := c.triList ++ [(cell : Int)] }
+      rw [hins] at h0
+      have h0 : c1.tetList = c.tetList ++ l0 := h0
+      obtain ⟨l1, h1⟩ := formSplitTris_prefix g n0 n1 rest c1
+      rw [h] at h1
+      have h1 : c'.tetList = c1.tetList ++ l1 := h1
+      have hnil : l0 = [] ∧ l1 = [] := by
+        have e : c.tetList ++ [] = c.tetList ++ (l0 ++ l1) := by
+          rw [List.append_nil, ← List.append_assoc, ← h0, ← h1, hsame]
+        exact List.append_eq_nil_iff.mp (List.append_cancel_left e).symm
+      have ht1 : c1.tetList = c.tetList := by rw [h0, hnil.1]; simp
+      have st := insertSegs3_spec hφ hd hψ g _ { c with triList := c.triList ++ [(cell : Int)] } c1 hf hsg htl hins
+        hs1 ht1
+      obtain ⟨a1, a2, a3, a4, a5, a6⟩ :=
+        ih c1 st.finv st.sinv (by rw [ht1]; exact htl) h (by rw [hsame, ht1])
+      exact ⟨a1, a2, a3.trans st.node, a4.trans st.surf, by rw [a5, st.tris]; simp, a6.trans st.ledger⟩
+
+/-- **`ref_cavity_form_edge_split`.**  If it returns ok with the state unknown and no tet beyond the ones around the
+    edge was pulled in, the cavity lists exactly the tets and tris around the edge and its ledger is
+    `∂T − (faces of T through the edge)`. -/
+theorem formEdgeSplit_formed {φ : Int → Int → Int → G} (hφ : Alt φ) (hd : Diag φ) (g : Grid α) (n0 n1 newNode : Int)
+    (c' : Cav) (h : formEdgeSplit g Cav.create n0 n1 newNode = (.ok, c')) (hs : c'.state = .unknown)
+    (hne : g.tets.having2 Tet.nodes n0 n1 ≠ [])
+    (hextra : c'.tetList = (g.tets.having2 Tet.nodes n0 n1).map fun p => (p.1 : Int)) :
+    EdgeFormed φ g n0 n1 c' := by
+  obtain ⟨cf, cs, ct, ctr, cst, cvs, _⟩ := create_facts
+  have hcells : ∀ p ∈ g.tets.having2 Tet.nodes n0 n1, g.tets.get? (p.1 : Int) = some p.2 :=
+    fun p hp => having2_get g.tets Tet.nodes n0 n1 p hp
+  have hψ : Alt2 (fun _ _ => (0 : G)) := ⟨fun _ _ => by simp, fun _ => rfl⟩
+  unfold formEdgeSplit at h
+  simp only at h
+  split at h
+  · simp only [Prod.mk.injEq, true_and] at h; rw [← h] at hs; simp at hs
+  · split at h
+    · next s1 c1 he =>
+      simp only [Prod.mk.injEq] at h
+      obtain ⟨rfl, rfl⟩ := h
+      rcases formSplitTets_early g n0 n1 _ _ _ _ he with e | e
+      · exact absurd rfl e
+      · rw [e] at hs; cases hs
+    · next s1 c1 he =>
+      obtain ⟨_, f1, ⟨g1, g2, g3, g4⟩, g5, g6, g7, _, g9, _⟩ :=
+        formSplitTets_spec hφ g n0 n1 _ hcells
+          { Cav.create with node := newNode, split0 := n0, split1 := n1 } c1 s1 cf he
+      have hc1tets : c1.tetList = (g.tets.having2 Tet.nodes n0 n1).map fun p => (p.1 : Int) := by
+        rw [g6]; simp [ct]
+      have hc1sum : rowsSum φ c1.faces.rows = (c1.tetList.map (tetBd φ g)).sum -
+          ((g.tets.having2 Tet.nodes n0 n1).map fun p => faceSum φ (edgeFaces n0 n1 p.2)).sum := by
+        rw [g9, hc1tets, tetBd_idx_sum φ g _ hcells, sum_map_sub]
+        have : rowsSum φ ({ Cav.create with node := newNode, split0 := n0, split1 := n1 } : Cav).faces.rows = 0 :=
+          rowsSum_create φ
+        rw [this]; abel
+      have hc1segs : c1.validSegs = [] := by simp only [Cav.validSegs, g1]; exact cvs
+      have hc1ne : c1.tetList ≠ [] := by rw [hc1tets]; simpa using hne
+      have hled1 : ledgerVal φ c1 = (c1.tetList.map (tetBd φ g)).sum -
+          ((g.tets.having2 Tet.nodes n0 n1).map fun p => faceSum φ (edgeFaces n0 n1 p.2)).sum := by
+        simp only [ledgerVal, hc1segs, coneSum, List.map_nil, List.sum_nil, sub_zero]; exact hc1sum
+      have hnd1 : c1.tetList.Nodup := by rw [hc1tets]; simpa [ct] using g7
+      split at h
+      · next hnt =>
+        have := verifyBoth_spec c1 c' _ h hs
+        subst this
+        have htri0 : g.tris.having2 Tri.nodes n0 n1 = [] := by
+          simpa using hnt
+        exact ⟨f1, by rw [g1]; exact cs, hc1tets, hnd1, by rw [g4, htri0]; simp [ctr], hled1⟩
+      · split at h
+        · next s2 c2 he2 =>
+          simp only [Prod.mk.injEq] at h
+          obtain ⟨rfl, rfl⟩ := h
+          rcases formSplitTris_early g n0 n1 _ _ _ _ he2 with e | e
+          · exact absurd rfl e
+          · rw [e] at hs; cases hs
+        · next s2 c2 he2 =>
+          split at h
+          · simp at h
+          · obtain ⟨l2, hl2⟩ := formSplitTris_prefix g n0 n1 (g.tris.having2 Tri.nodes n0 n1) c1
+            rw [he2] at hl2
+            have hl2 : c2.tetList = c1.tetList ++ l2 := hl2
+            split at h
+            · -- one tri on the edge: the explicit split segs
+              rcases hseg : insertSegs g c2 ((g.tris.having2 Tri.nodes n0 n1).flatMap fun p => (triSegs p.2).flatMap fun s =>
+                  if sameEdge n0 n1 s.n0 s.n1 then [(⟨s.n0, newNode, p.2.id⟩ : Seg), ⟨newNode, s.n1, p.2.id⟩] else [])
+                with ⟨s4, c4⟩
+              rw [hseg] at h
+              cases s4 <;> simp only [] at h <;> try (simp at h)
+              have := verifyBoth_spec c4 c' _ h hs
+              subst this
+              obtain ⟨l4, hl4⟩ := insertSegs_prefix g ((g.tris.having2 Tri.nodes n0 n1).flatMap fun p =>
+                (triSegs p.2).flatMap fun s =>
+                  if sameEdge n0 n1 s.n0 s.n1 then [(⟨s.n0, newNode, p.2.id⟩ : Seg), ⟨newNode, s.n1, p.2.id⟩] else []) c2
+              rw [hseg] at hl4
+              have hl4 : c'.tetList = c2.tetList ++ l4 := hl4
+              have hnil : l2 = [] ∧ l4 = [] := by
+                have e : c1.tetList ++ [] = c1.tetList ++ (l2 ++ l4) := by
+                  rw [List.append_nil, ← List.append_assoc, ← hl2, ← hl4, hextra, hc1tets]
+                exact List.append_eq_nil_iff.mp (List.append_cancel_left e).symm
+              have ht2 : c2.tetList = c1.tetList := by rw [hl2, hnil.1]; simp
+              have ht4 : c'.tetList = c2.tetList := by rw [hl4, hnil.2]; simp
+              have hs2 : c2.state = .unknown := insertSegs_state_mono g _ c2 c' _ hseg hs
+              obtain ⟨a1, a2, a3, a4, a5, a6⟩ :=
+                formSplitTris_spec hφ hd g n0 n1 _ c1 c2 s2 f1 (by rw [g1]; exact cs) hc1ne he2 hs2 ht2
+              have st := insertSegs3_spec hφ hd hψ g _ c2 c' a1 a2 (by rw [ht2]; exact hc1ne) hseg hs ht4
+              exact ⟨st.finv, st.sinv, hextra, by rw [hextra, ← hc1tets]; exact hnd1,
+                by rw [st.tris, a5, g4]; simp [ctr], by rw [st.ledger, a6, hled1, ht4, ht2]⟩
+            · have := verifyBoth_spec c2 c' _ h hs
+              subst this
+              have ht2 : c'.tetList = c1.tetList := by rw [hextra, hc1tets]
+              obtain ⟨a1, a2, a3, a4, a5, a6⟩ :=
+                formSplitTris_spec hφ hd g n0 n1 _ c1 c' s2 f1 (by rw [g1]; exact cs) hc1ne he2 hs ht2
+              exact ⟨a1, a2, hextra, by rw [hextra, ← hc1tets]; exact hnd1,
+                by rw [a5, g4]; simp [ctr], by rw [a6, hled1, ht2]⟩
+
 /-! ### `EdgeMatched` from global conformity (localisation) -/
 
 /-- the adjacency side of a cell store is consistent with its rows: walking the registration order and looking the
